@@ -4,6 +4,7 @@ from ..prog import *
 from ..facts import AnalysisBroken
 from ..interp import normx, nkey, run_all
 from .. import evbheap as HB
+from .. import evbmodel as EM
 
 UNITS = ["buffer"]
 LEVEL = "other"
@@ -260,7 +261,101 @@ def run(ctx, config):
                 r4.bad("K8:evbuffer_write_iovec:iov_len-unbounded", el.where(), g.name, "iovec length %s is not bounded by howmuch" % show(v))
     rules.append(r4)
     rules.append(rule_read_heap(P))
+    rules.append(rule_write_heap(P))
     return rules
+
+
+def rule_write_heap(P):
+    """evbuffer_write_atmost evaluated on abstract buffer images with symbolic bytes: what is offered to write/writev is a prefix of the content no longer than
+    howmuch, nothing is offered while the front is frozen, and afterwards the buffer holds exactly the bytes the kernel did not take"""
+    r = Rule("C16-write-structure", "K6", "evbuffer_write_atmost offers a prefix (<= howmuch) of the content, nothing while frozen, and removes exactly what the kernel accepted", floor=150)
+    f = P.fn("evbuffer_write_atmost")
+    nb = 0
+    for title, chains, lwd in EM.LAYOUTS:
+        total = sum(c.get("off", 0) for c in chains)
+        first_off = chains[0].get("off", 0) if chains else 0
+        for howmuch in sorted(set([-1, 0, 1, first_off, first_off + 1, total, total + 10])):
+            for frozen in (0, 1):
+                for mode in ("all", "one", "but-one", "zero", "error"):
+                    env = EM.base_env(P, chains, lwd)
+                    HB.seed_memory(env, "buf", "d")
+                    env[HB.cell("buf", "evbuffer", "freeze_start")] = frozen
+
+                    def extra(el, e_, mode=mode):
+                        n = callee_name(el.e)
+                        if n not in ("write", "writev", "send", "sendfile"):
+                            return None
+                        a = el.e[2]
+                        segs = []
+                        try:
+                            if n in ("write", "send"):
+                                segs.append((evalx(normx(a[1]), e_, P), evalx(normx(a[2]), e_, P)))
+                            elif n == "writev":
+                                cnt = evalx(normx(a[2]), e_, P)
+                                arr = strip(a[1])
+                                for k in range(cnt):
+                                    b_ = e_.get(nkey(["fld", ["idx", arr, ["int", k]], "iovec.iov_base", "."]))
+                                    l_ = e_.get(nkey(["fld", ["idx", arr, ["int", k]], "iovec.iov_len", "."]))
+                                    if b_ is None or l_ is None:
+                                        e_["#err"] = "iovec %d not initialised" % k
+                                        return "impure"
+                                    segs.append((b_, l_))
+                            else:
+                                return "impure"
+                        except EvalError as ex:
+                            e_["#err"] = str(ex)
+                            return "impure"
+                        offered = []
+                        for b_, l_ in segs:
+                            for j in range(l_):
+                                offered.append(e_.get(("m", b_ + j)))
+                        e_["#offered"] = e_.get("#offered", ()) + (tuple(offered),)
+                        res = {"all": len(offered), "one": min(1, len(offered)), "but-one": max(len(offered) - 1, 0), "zero": 0, "error": -1}[mode]
+                        e_["#sent"] = res
+                        return res
+                    hook = HB.make_hook(P, extra=extra)
+                    e0 = dict(env)
+                    e0.update({"#typed": 1, "event_debug_logging_mask_": 0, f.params[0][0]: PPtr("buf"), f.params[1][0]: 5, f.params[2][0]: howmuch})
+                    outs = [o for o in run_all(f, (f.entry, 0), e0, lambda el: False, P, hook, max_steps=2500) if not (o.kind == "exit" and o.why == "noreturn")]
+                    for o in outs:
+                        if o.kind != "ret":
+                            r.brk("evbuffer_write_atmost(%s, howmuch=%d): %s %s %s" % (title, howmuch, o.kind, o.why, o.env.get("#err", "")))
+                            return r
+                        rv = tevalx(normx(o.at.e[1]), o.env, P, f)
+                        old = EM.sym("d", total)
+                        offs = o.env.get("#offered", ())
+                        sent = o.env.get("#sent")
+                        bad = []
+                        eff = total if (howmuch < 0 or howmuch > total) else howmuch
+                        if frozen:
+                            if offs:
+                                bad.append("%d bytes were handed to the kernel although the front of the buffer is frozen" % len(offs[0]))
+                            bad += EM.check_after(o.env, "buf", old, 0, 0)
+                            if rv != -1:
+                                bad.append("returns %r on a frozen buffer" % (rv,))
+                        else:
+                            if len(offs) > 1:
+                                bad.append("more than one system call")
+                            if offs:
+                                off0 = list(offs[0])
+                                if len(off0) > eff:
+                                    bad.append("offers %d bytes, howmuch allows %d" % (len(off0), eff))
+                                if off0 != old[:len(off0)]:
+                                    bad.append("the bytes offered are not the first bytes of the buffer")
+                                took = max(sent, 0)
+                                bad += EM.check_after(o.env, "buf", old[took:], 0, took)
+                                if rv != sent:
+                                    bad.append("returns %r, the kernel reported %d" % (rv, sent))
+                            else:
+                                bad += EM.check_after(o.env, "buf", old, 0, 0)
+                                if eff > 0 and total > 0:
+                                    bad.append("nothing was offered although %d bytes could be written" % eff)
+                        r.inst((title, howmuch, frozen, mode), {"layout": title, "howmuch": howmuch, "frozen_front": frozen, "kernel_takes": mode, "returns": rv, "violations": bad}, nontrivial=bool(offs) or bool(frozen))
+                        if bad and nb < 6:
+                            nb += 1
+                            r.bad("K6:evbuffer_write_atmost:%s" % ("frozen" if frozen else "structure"), "%s:%d" % (f.file, f.line), f.name,
+                                  "%s, howmuch=%d, front %s, kernel takes %s: %s" % (title, howmuch, "frozen" if frozen else "not frozen", mode, "; ".join(bad[:3])))
+    return r
 
 
 def rule_read_heap(P):
